@@ -21,6 +21,14 @@ property statement (plus the analytic Fourier symbol of the filter, which the st
     multiplied by the predicted symbol, measured amplification in [0,1], output bitwise independent
     of garbage (finite / NaN payloads / zeros) pre-loaded into the two work buffers.
 
+Workload diversity (added after the seeded-change campaign): Brinkmann kernels get the penalty factor alternately as real_t
+and python float and, in the quick tier, a second smaller grid of the opposite orientation through the same kernel objects;
+the random Heaviside widths are passed as real_t scalars, every first repetition runs on a grid whose first axis is the
+longest; damping (quick): one TALL (2-D: grid_size_y > grid_size_x) / axis-permuted (3-D) grid per shard, plus SIBLING kernels
+sharing grid shape and precision with the last pool kernel of the shard but differing in width resp. dx (python float), then
+that pool kernel object again; filters: every filter object is re-checked (constant, two plane waves) after the NEXT object
+was generated and used, and the odd-order vector filters share the grid shape of the scalar filter generated just before.
+
 Tolerances (K * eps_t * magnitude; measured max err/tol on the unchanged tree + F6.diff, seeds 0..5 quick,
 0..1 thorough, both precisions):
   brinkmann bounds / monotone / limit   32 eps max(|f|,|t|)              measured <= 0.063
@@ -113,10 +121,22 @@ REQUIRE = {
     "damping_w6_seen": 2,
     "damping_width0_calls": 2,
     "damping_width1_calls": 2,
+    "damping_calls_tall": {"quick": 20, "thorough": 0},
+    "damping_calls_sibling_width": 8,
+    "damping_calls_sibling_dx": 8,
+    "damping_calls_first_again": 8,
     "filter_plane_waves": 500,
     "filter_history_bitwise": 16,
     "filter_constants_bitwise": 16,
     "filter_checkerboards": 16,
+    "filter_rechecks_of_earlier_object": 20,
+    "filter_objects_sharing_shape_with_previous_object": 8,
+    "brinkmann_penalty_factor_real_t": 500,
+    "brinkmann_penalty_factor_python_float": 500,
+    "brinkmann_shapes_first_axis_longer_than_x": 1,
+    "brinkmann_shapes_x_longest_or_equal": 1,
+    "heaviside_generators_width_as_real_t": 4,
+    "heaviside_shapes_first_axis_longer_than_x": 20,
 }
 LAMBDAS = [0.0] + [10.0**p for p in range(13)]
 
@@ -258,14 +278,33 @@ def _brink(sh, rec):
     if d == 2:
         kfs = spne.gen_brinkmann_penalise_vs_fixed_val_pyst_kernel_2d(real_t=real_t, num_threads=2, field_type="scalar")
         kfv = spne.gen_brinkmann_penalise_vs_fixed_val_pyst_kernel_2d(real_t=real_t, num_threads=2, field_type="vector")
-    nshape = 5 if thorough else 1
-    for _ in range(nshape):
+    nshape = 5 if thorough else 2
+    nlam = [0]
+
+    def lam_arg(lam):
+        """penalty factor alternately as python float and as real_t"""
+        nlam[0] += 1
+        rec.count("brinkmann_penalty_factor_real_t" if nlam[0] % 2 else "brinkmann_penalty_factor_python_float")
+        return real_t(lam) if nlam[0] % 2 else lam
+
+    shape0 = None
+    for ishape in range(nshape):
         shape = util.shape2d(rng, 5, 48) if d == 2 else util.shape3d(rng, 4, 18)
+        # quick tier: a second, smaller grid of the OPPOSITE orientation through the same generated kernel objects
+        reduced = (not thorough) and ishape == 1
+        if reduced:
+            shape = tuple(max(4, n // 2) for n in shape0[::-1])
+            if len(set(shape)) == 1:
+                shape = shape[:-1] + (shape[-1] + 1,)
+        shape0 = shape0 or shape
+        rec.count("brinkmann_shapes_first_axis_longer_than_x" if shape[0] > shape[-1] else "brinkmann_shapes_x_longest_or_equal")
         meta = {"dim": d, "dtype": sh["dtype"], "shape": shape}
         chis = _chis(rng, shape, real_t)
-        for ci, (cname, chi) in enumerate(chis):
+        for ci, (cname, chi) in enumerate(chis[:1] if reduced else chis):
             pairs = _ft_pairs(rng, shape, real_t)
-            if not thorough:  # quick: every pair class with the first indicator, a rotating subset otherwise
+            if reduced:
+                pairs = pairs[:1] + pairs[3:5]
+            elif not thorough:  # quick: every pair class with the first indicator, a rotating subset otherwise
                 pairs = pairs if ci == 0 else [pairs[(ci + j) % len(pairs)] for j in range(3)]
             for pname, f, t in pairs:
                 cls = (d, sh["dtype"], pname, cname)
@@ -273,13 +312,13 @@ def _brink(sh, rec):
                 def run_s(lam, f=f, t=t, chi=chi):
                     out = util.sentinel_like(rng, shape, real_t)
                     f0, t0, c0 = f.copy(), t.copy(), chi.copy()
-                    ks(penalised_field=out, field=f, char_field=chi, penalty_field=t, penalty_factor=lam)
+                    ks(penalised_field=out, field=f, char_field=chi, penalty_field=t, penalty_factor=lam_arg(lam))
                     rec.check(util.bits_equal(f, f0) and util.bits_equal(t, t0) and util.bits_equal(chi, c0), "brinkmann-input-modified", f"scalar kernel modified an input {meta}")
                     return out
 
                 _brink_monitor(rec, "scalar", run_s, f, t, chi, real_t, cls, meta)
         # vector wrapper: one indicator for all components, components of different classes
-        for cname, chi in chis[:2]:
+        for cname, chi in (chis[:1] if reduced else chis[:2]):
             pr = _ft_pairs(rng, shape, real_t)
             sel = [pr[int(i)] for i in rng.choice(len(pr), size=d, replace=False)]
             fv = np.ascontiguousarray(np.stack([p[1] for p in sel]))
@@ -287,19 +326,19 @@ def _brink(sh, rec):
 
             def run_v(lam):
                 out = util.sentinel_like(rng, fv.shape, real_t)
-                kv(penalised_vector_field=out, penalty_factor=lam, char_field=chi, penalty_vector_field=tv, vector_field=fv)
+                kv(penalised_vector_field=out, penalty_factor=lam_arg(lam), char_field=chi, penalty_vector_field=tv, vector_field=fv)
                 return out
 
             _brink_monitor(rec, "vector", run_v, fv, tv, chi[None], real_t, (d, sh["dtype"], "+".join(p[0] for p in sel), cname), meta, lambdas=LAMBDAS[::2] + [1e12] if not thorough else LAMBDAS)
         # versus fixed value (2-D only)
         if d == 2:
-            for cname, chi in chis[:3]:
+            for cname, chi in (chis[:1] if reduced else chis[:3]):
                 pr = _ft_pairs(rng, shape, real_t)
-                for pname, f, _t in (pr[0], pr[1], pr[6]):
+                for pname, f, _t in ((pr[0],) if reduced else (pr[0], pr[1], pr[6])):
                     for val in (0.0, float(real_t(rng.standard_normal() * 5)), float(real_t(np.max(np.abs(f)) * 2)), -1e3):
                         def run_fs(lam, f=f, chi=chi, val=val):
                             out = util.sentinel_like(rng, shape, real_t)
-                            kfs(penalised_field=out, field=f, char_field=chi, penalty_factor=lam, penalty_val=val)
+                            kfs(penalised_field=out, field=f, char_field=chi, penalty_factor=lam_arg(lam), penalty_val=val)
                             return out
 
                         _brink_monitor(rec, "fixed-val-scalar", run_fs, f, np.asarray(real_t(val)), chi, real_t, (d, sh["dtype"], pname, cname, "val0" if val == 0 else "val"), meta, lambdas=LAMBDAS if thorough else [0.0, 1.0, 1e2, 1e5, 1e9, 1e12])
@@ -308,7 +347,7 @@ def _brink(sh, rec):
 
                 def run_fv(lam):
                     out = util.sentinel_like(rng, fv.shape, real_t)
-                    kfv(penalised_vector_field=out, penalty_factor=lam, char_field=chi, penalty_val=vals, vector_field=fv)
+                    kfv(penalised_vector_field=out, penalty_factor=lam_arg(lam), char_field=chi, penalty_val=vals, vector_field=fv)
                     return out
 
                 _brink_monitor(rec, "fixed-val-vector", run_fv, fv, np.array(vals, real_t)[:, None, None], chi[None], real_t, (d, sh["dtype"], "noise+same-sign", cname), meta, lambdas=LAMBDAS[::2] + [1e12] if not thorough else LAMBDAS)
@@ -355,9 +394,11 @@ def _charfn(sh, rec):
     thorough = sh["tier"] != "quick"
     gen = spne.gen_char_func_from_level_set_via_sine_heaviside_pyst_kernel_2d if d == 2 else spne.gen_char_func_from_level_set_via_sine_heaviside_pyst_kernel_3d
     widths = [0.125, 0.3, 1e-3, 7.7] + [float(np.round(rng.uniform(0.01, 3.0), 3)) for _ in range(6 if thorough else 1)]
-    for bw in widths:
+    for iw, bw in enumerate(widths):
         try:
-            k = gen(blend_width=bw, real_t=real_t, num_threads=2)
+            # the random widths are handed over as real_t scalars, the fixed ones as python floats
+            k = gen(blend_width=(real_t(bw) if iw >= 4 else bw), real_t=real_t, num_threads=2)
+            rec.count("heaviside_generators_width_as_real_t" if iw >= 4 else "heaviside_generators_width_as_python_float")
         except Exception as e:
             rec.violation("heaviside-generator-raises", f"blend_width={bw}: {type(e).__name__}: {e}")
             continue
@@ -370,6 +411,9 @@ def _charfn(sh, rec):
         joints = [real_t(s * bw * (1 - h)) for s in (-1, 1) for h in (1 / 8, 1 / 16, 1 / 64)]
         for rep in range(6 if thorough else 2):
             shape = util.shape2d(rng, 6, 60) if d == 2 else util.shape3d(rng, 4, 16)
+            if rep % 2 == 0:
+                shape = tuple(sorted(shape, reverse=True))  # rep 0: first axis longest (tall); rep 1: as drawn
+            rec.count("heaviside_shapes_first_axis_longer_than_x" if shape[0] > shape[-1] else "heaviside_shapes_x_longest_or_equal")
             n = int(np.prod(shape))
             meta = {"dim": d, "dtype": sh["dtype"], "shape": shape, "blend_width": bw}
             fixed = np.array(edges + joints + [0.0], dtype=real_t)
@@ -492,6 +536,32 @@ def _damp_fields(rng, shape, dist, w, real_t, lead=()):
     return [(k, np.ascontiguousarray(v.astype(real_t))) for k, v in out]
 
 
+def _damp_jobs(d, widths, thorough):
+    """(width, shape, dx, role, variants).  pool: the fixed pool of each width.  Quick tier additionally: one TALL (2-D:
+    grid_size_y > grid_size_x) / axis-permuted (3-D) grid per shard; then SIBLING kernels that share grid shape and
+    precision with the last pool kernel of the shard but differ in width resp. in dx (a generator cache keyed by shape and
+    precision only), and finally the last pool kernel object once more ("first-again")."""
+    variants = ["scalar"] if d == 2 else ["scalar", "vector"]
+    jobs = []
+    for w in widths:
+        for shape, dx in _damp_pool(d, w, thorough):
+            jobs.append((w, shape, dx, "pool", variants))
+    if not thorough:
+        wt = 2 if widths[0] == 0 else 5
+        m = 2 * wt + 3
+        if d == 2:
+            shape_t = (m + 5, m)
+        else:
+            shape_t = (m + 4, m, m + 1) if wt == 2 else (m + 1, m + 4, m)
+        jobs.append((wt, shape_t, 0.1, "tall", variants))
+    wl = widths[-1]
+    shape_l, dx_l = _damp_pool(d, wl, thorough)[0]
+    jobs.append((wl - 1, shape_l, dx_l, "sibling-width", variants[:1]))
+    jobs.append((wl, shape_l, 0.37 / 40, "sibling-dx", variants[:1]))
+    jobs.append((wl, shape_l, dx_l, "first-again", variants[:1]))
+    return jobs
+
+
 def _damp(sh, rec):
     import sopht.numeric.eulerian_grid_ops as spne
 
@@ -500,31 +570,47 @@ def _damp(sh, rec):
     eps = util.eps(real_t)
     rng = util.rng_for(sh["seed"], ID, sh["name"])
     thorough = sh["tier"] != "quick"
-    for w in sh["widths"]:
-        for shape, dx in _damp_pool(d, w, thorough):
+    kept = {}
+    for w, shape, dx, role, variants in _damp_jobs(d, sh["widths"], thorough):
             axes = [((np.arange(n) + 0.5) * dx).astype(real_t) for n in shape]
             g = [np.ascontiguousarray(a) for a in np.meshgrid(*axes, indexing="ij")][::-1]  # x, y(, z)
-            variants = ["scalar"] if d == 2 else ["scalar", "vector"]
             for var in variants:
-                meta = {"dim": d, "dtype": sh["dtype"], "shape": shape, "dx": dx, "width": w, "variant": var}
-                try:
-                    if d == 2:
-                        k = spne.gen_penalise_field_boundary_pyst_kernel_2d(width=w, dx=real_t(dx), x_grid_field=g[0], y_grid_field=g[1], real_t=real_t, num_threads=2)
-                    else:
-                        k = spne.gen_penalise_field_boundary_pyst_kernel_3d(width=w, dx=real_t(dx), x_grid_field=g[0], y_grid_field=g[1], z_grid_field=g[2], real_t=real_t, num_threads=2, field_type=var)
-                except Exception as e:
-                    rec.violation("boundary-damping-generator-raises", f"{type(e).__name__}: {e} {meta}", {"meta": meta})
-                    rec.case(None)
-                    continue
+                meta = {"dim": d, "dtype": sh["dtype"], "shape": shape, "dx": dx, "width": w, "variant": var, "object": role}
+                if role == "first-again":
+                    k = kept.get((w, shape, dx, var))
+                    if k is None:
+                        continue
+                else:
+                    # dx as real_t (what the simulators pass); the dx sibling gets a python float
+                    dx_arg = float(real_t(dx)) if role == "sibling-dx" else real_t(dx)
+                    try:
+                        if d == 2:
+                            k = spne.gen_penalise_field_boundary_pyst_kernel_2d(width=w, dx=dx_arg, x_grid_field=g[0], y_grid_field=g[1], real_t=real_t, num_threads=2)
+                        else:
+                            k = spne.gen_penalise_field_boundary_pyst_kernel_3d(width=w, dx=dx_arg, x_grid_field=g[0], y_grid_field=g[1], z_grid_field=g[2], real_t=real_t, num_threads=2, field_type=var)
+                    except Exception as e:
+                        mech = "boundary-damping-generator-raises"
+                        rec.violation(mech, f"{type(e).__name__}: {e} {meta}", {"meta": meta})
+                        rec.case(None)
+                        continue
+                    if role == "pool":
+                        kept[(w, shape, dx, var)] = k
+                if role != "pool":
+                    rec.count("damping_kernels_" + role.replace("-", "_"))
                 dist = _dist(shape)
                 zone = dist < w
                 ring = dist == 0
                 edge = dist == w - 1
                 lead = (3,) if var == "vector" else ()
-                for kind, f0 in _damp_fields(rng, shape, dist, w, real_t, lead):
+                fields = _damp_fields(rng, shape, dist, w, real_t, lead)
+                if role.startswith("sibling") or role == "first-again":
+                    fields = fields[:1] + fields[3:4]  # noise, zone-big
+                for kind, f0 in fields:
                     f = f0.copy()
                     rec.count("damping_calls")
                     rec.count(f"damping_width{w}_calls" if w < 2 else "damping_widthge2_calls")
+                    if role != "pool":
+                        rec.count("damping_calls_" + role.replace("-", "_"))
                     try:
                         if var == "vector":
                             k(vector_field=f)
@@ -535,7 +621,7 @@ def _damp(sh, rec):
                         rec.violation(mech, f"{type(e).__name__}: {e} {meta}", {"meta": meta, "field": f0})
                         rec.case((d, sh["dtype"], var, w, kind, "raises"))
                         continue
-                    rec.case((d, sh["dtype"], var, w, kind), sample={**meta, "field": kind} if kind == "noise" else None)
+                    rec.case((d, sh["dtype"], var, w, kind, role), sample={**meta, "field": kind} if kind == "noise" else None)
                     if w >= 2:
                         rec.count(f"damping_w{w}_seen")
                     wit = {"meta": meta, "kind": kind, "before": f0, "after": f}
@@ -612,9 +698,18 @@ def _filter(sh, rec):
     thorough = sh["tier"] != "quick"
     lattice = list(itertools.product(range(9), repeat=3))
     even = [m for m in lattice if all(x % 2 == 0 for x in m)]
+    recheck_prev = None  # closure re-checking the PREVIOUS filter object after the next one was generated and used
+    prev_shape = None
     for order in sh["orders"]:
         for var in ("scalar", "vector"):
             shape = util.shape3d(rng, 2 * order + 6, 2 * order + 14)
+            if var == "vector" and order % 2 == 1:
+                # sibling object: SAME grid shape, precision, order and type as the scalar filter generated just before, other
+                # field_type and its own work buffers
+                shape = prev_shape
+                rec.count("filter_objects_sharing_shape_with_previous_object")
+            prev_shape = shape
+            rec.count("filter_shapes_first_axis_longer_than_x" if shape[0] > shape[-1] else "filter_shapes_x_longest_or_equal")
             meta = {"dtype": sh["dtype"], "type": ftype, "order": order, "variant": var, "shape": shape}
             fb = np.empty(shape, real_t)
             bb = np.empty(shape, real_t)
@@ -649,6 +744,47 @@ def _filter(sh, rec):
             r_ = order + 1
             I = (Ellipsis, *([slice(r_, -r_)] * 3))
             Z, Y, X = np.meshgrid(*[np.arange(n) for n in shape], indexing="ij")
+
+            def recheck(filt=filt, fb=fb, bb=bb, full=full, nc=nc, I=I, X=X, Y=Y, Z=Z, order=order, var=var, meta=meta, shape=shape, base=base):
+                """constant + two plane waves through THIS filter object, called after a LATER object was generated and used
+                (everything bound at definition time: the enclosing loop variables have moved on by then)"""
+
+                def apply(a):
+                    _garbage(rng, (fb, bb), "finite")
+                    g = np.ascontiguousarray(a.astype(real_t))
+                    try:
+                        if var == "vector":
+                            filt(vector_field=g)
+                        else:
+                            filt(scalar_field=g)
+                    except Exception as e:
+                        raise _SophtRaised(f"{type(e).__name__}: {e}") from e
+                    return g
+
+                a = np.full(full, -3.3, real_t)
+                g = apply(a)
+                rec.count("filter_rechecks_of_earlier_object")
+                rec.case((*base, "const", "earlier-object"))
+                if not util.bits_equal(g, a):
+                    rec.violation("filter-constant-not-fixed", f"constant -3.3 (earlier filter object used after a later one was generated): {util.nbits_differ(g, a)} bytes differ {meta}", {"meta": meta, "out": g})
+                for m in ((2, 4, 6), (8, 3, 1)):
+                    amp = 3.7
+                    mm = [m] * nc
+                    a = np.stack([_wave(mi, "cos", X, Y, Z, amp) for mi in mm]).reshape(full)
+                    g = apply(a)
+                    G = g.astype(np.float64).reshape((nc, *shape))
+                    Aq = a.reshape((nc, *shape))
+                    rec.count("filter_plane_waves", nc)
+                    rec.case((*base, "wave", "earlier-object"))
+                    for c in range(nc):
+                        sym = _symbol(mm[c], order, ftype)
+                        tol = 8 * eps * (3 + order) * amp
+                        e = np.abs(G[c][I[1:]] - sym * Aq[c][I[1:]])
+                        r = float(np.max(e) / tol) if np.all(np.isfinite(e)) else float("inf")
+                        rec.stat("filter_symbol", r)
+                        if not (r <= 1):
+                            rec.violation("filter-symbol", f"m={mm[c]} (cos) k=pi*m/8 through an EARLIER filter object after a later one was generated: interior output differs from symbol {sym:.6g} x input by {r:.3g} tol {meta}", {"meta": meta, "m": mm[c], "in": a, "out": g})
+
             try:
                 # 1. constants: fixed, bitwise, whole array (ring included)
                 for cval in (0.0, 1.0, -3.3, float(rng.standard_normal() * 1e3), float(rng.standard_normal() * 1e-3)):
@@ -718,5 +854,9 @@ def _filter(sh, rec):
                         rec.violation("filter-depends-on-buffer-garbage", f"{kind}: outputs differ in {nb} bytes between runs that differ only in the prior contents of filter_flux_buffer / field_buffer {meta}", {"meta": meta, "in": a, "outs": outs})
                     if not np.all(np.isfinite(outs[0].astype(np.float64))):
                         rec.violation("filter-nonfinite", f"{kind} {meta}", {"meta": meta, "in": a})
+                # the previous filter object (other order / field type, possibly the same shape) once more, now that this one exists
+                if recheck_prev is not None:
+                    recheck_prev()
             except _SophtRaised as e:
                 rec.violation("filter-raises", f"{e} {meta}", {"meta": meta})
+            recheck_prev = recheck
